@@ -2445,6 +2445,11 @@ namespace bloch::compiler {
                     throw BlochError(ErrorCategory::Semantic, node.line, node.column,
                                      "static methods should be accessed via the type, not super");
                 }
+                if (!method->hasBody) {
+                    throw BlochError(ErrorCategory::Semantic, node.line, node.column,
+                                     "'super." + member->member +
+                                         "()' names a method without a body; there is nothing to call");
+                }
             }
             std::vector<TypeInfo> params;
             params.reserve(method->paramTypes.size());
